@@ -19,6 +19,8 @@ Decided:
              length constants.  Independent of how the code is organised; the structural rules stay as cross-checks
              pbkdf2 against RFC 8018 with an uninterpreted PRF: DK = T_1 || T_2 || ... truncated, T_i = U_1 ^ ... ^ U_c, for
              every output length up to three blocks, c in {1,2,3,5}, several salt lengths and PRF sizes
+             hkdf_extract / hkdf_expand against RFC 5869 with an uninterpreted digest that arrives WITH history (a missing
+             reset is visible): PRK = HMAC(salt, IKM), OKM = T(1) || T(2) || ..., T(i) = HMAC(PRK, T(i-1) || info || i)
 Not decided: ROMix / BlockMix data flow and values."""
 import re
 
